@@ -279,7 +279,9 @@ def sevenbit_case(draw):
     if draw(st.booleans()) and text:
         text += '\r\n'
     enc = draw(st.sampled_from(['base64', 'qp', 'none']))
-    extra = draw(st.sampled_from([b'', b'Subject: x\r\n', b'Content-Transfer-Encoding: 8bit\r\n']))
+    # the transfer-encoding label may come from the sender and need not be truthful for a raw 8-bit body
+    extra = draw(st.sampled_from([b'', b'Subject: x\r\n', b'Content-Transfer-Encoding: 8bit\r\n', b'Content-Transfer-Encoding: 7bit\r\n',
+                                  b'content-transfer-encoding: 7BIT\r\n', b'Content-Transfer-Encoding: binary\r\n']))
     return text, enc, extra
 
 
